@@ -246,6 +246,12 @@ fn main() {
                         .collect();
                     l.sort();
                     l.dedup();
+                    // the result is a SET of issues: no two of its elements may compare equal (a Hash that disagrees
+                    // with Eq - e.g. a case-sensitive hash of case-insensitively equal names - lets duplicates in)
+                    let v: Vec<&ValidationIssue> = issues.iter().collect();
+                    if (0..v.len()).any(|i| (i + 1..v.len()).any(|j| v[i] == v[j])) {
+                        l.push("~set-holds-two-equal-issues".to_string());
+                    }
                     if l.is_empty() { "ok -".to_string() } else { format!("ok {}", l.join(",")) }
                 }
             }
